@@ -7,7 +7,7 @@ import warnings
 
 import numpy as np
 
-from hyverif.core import digest
+from hyverif.core import digest, same_result, scalar_forms
 
 ID = "C17"
 SHARDS = {"quick": 8, "thorough": 16}
@@ -203,6 +203,16 @@ def run_case(ctx, case):
     ctx.api("armodel_residual")
     r = call(ar.armodel_residual, params, y.copy(), **kw)
     # the same numbers in another memory layout / container / exact dtype
+    if n >= 1:
+        kws = {k_: scalar_forms(v_, n + i_) for i_, (k_, v_) in enumerate(kw.items())}
+        try:
+            ysf = call(ar.armodel_sim, params, e.copy(), **kws)
+            ctx.check("sim.scalar-forms", same_result(ysf, y),
+                      "armodel_sim|result-depends-on-scalar-type-of-options", case,
+                      lambda: {k_: repr(v_) for k_, v_ in kws.items()})
+        except Exception as ex:
+            ctx.check("sim.scalar-forms", False, "armodel_sim|raises-on-numpy-scalar-option",
+                      case, {"exc": repr(ex), **{k_: repr(v_) for k_, v_ in kws.items()}})
     if n >= 1 and n <= 300:
         ctx.reuse("armodel_sim", lambda p_, e_: call(ar.armodel_sim, p_, e_, **kw),
                   [phi, e], y, case)
